@@ -13,7 +13,7 @@ From AL Require C07.Check.
 From AL Require Import Base.CaseLib C07.Model C07.Spec C07.Proofs_Ring C05.Model C05.Spec C05.Lib C05.Proofs_Run C05.Proofs_Ops
   C05.Proofs_Signal C05.Proofs_Signal2 C05.Proofs_List C05.Proofs_Eq C05.Proofs_Domain C05.Proofs_Frac
   C05.Proofs_Field C05.Proofs_Pow C05.Proofs_Subst C05.Proofs_Sem C05.Proofs_Laws C05.Proofs_Norm
-  C05.Proofs_Lin C05.Proofs_Check C05.Proofs_Hom C05.Proofs_SemFull C05.Proofs_Signal3.
+  C05.Proofs_Lin C05.Proofs_Check C05.Proofs_Hom C05.Proofs_SemFull C05.Proofs_Signal3 C05.Proofs_Struct.
 Import ListNotations.
 Open Scope Qc_scope.
 
@@ -96,6 +96,16 @@ Theorem C05_parallel_is_sum : forall f r x, causal_ok f -> Forall causal_ok r ->
     parallel_numpoly (f :: r) = Ok (fnum h) /\ parallel_denpoly (f :: r) = Ok (fden h).
 Proof. exact parallel_is_sum. Qed.
 Print Assumptions C05_parallel_is_sum.
+
+(* Histories: the model of a (nested) filter list is a pure function of the members it holds at the moment of
+   the call / of the read of numpoly, denpoly; on a flat list it IS the model of the two theorems above, so they
+   hold of every state an edited CascadeFilter / ParallelFilter object goes through, whatever was read before. *)
+Theorem C05_calls_independent : forall fs x,
+  srun (SCasc (map SF fs)) x = cascade_run fs x /\ srun (SPar (map SF fs)) x = parallel_run fs x /\
+  spoly true (SCasc (map SF fs)) = cascade_numpoly fs /\ spoly false (SCasc (map SF fs)) = cascade_denpoly fs /\
+  spoly true (SPar (map SF fs)) = parallel_numpoly fs /\ spoly false (SPar (map SF fs)) = parallel_denpoly fs.
+Proof. exact struct_calls_flat. Qed.
+Print Assumptions C05_calls_independent.
 
 (* ------------------------------------------------------------------ == != hash *)
 Theorem C05_eq_ne_exclusive : forall f g, fne f g = negb (feq f g).
